@@ -27,6 +27,29 @@ func encPathStr(p clip.Path64) string {
 
 // small-coordinate paths rich in exact collinearity, spikes, duplicates, unit differences
 func genTrimPath(r *RNG) clip.Path64 {
+	if r.Intn(12) == 0 {
+		// huge coordinate differences (2^33..2^44): exactly collinear runs P0 + k*v and corners whose exact cross
+		// product is a multiple of 2^64 or off it by a little, so that the 128-bit product comparison is exercised
+		vx := (int64(1) << uint(33+r.Intn(8))) + r.Range(-99999, 99999)
+		vy := (int64(1) << uint(20+r.Intn(12))) + r.Range(-999, 999)
+		if r.Bool() {
+			vy = -vy
+		}
+		p0 := clip.Point64{X: r.Range(-1000, 1000), Y: r.Range(-1000, 1000)}
+		k1, k2 := r.Range(1, 4), r.Range(5, 9)
+		p := clip.Path64{p0, {X: p0.X + k1*vx, Y: p0.Y + k1*vy}, {X: p0.X + k2*vx, Y: p0.Y + k2*vy}}
+		// a genuine corner far away, so that the closed path has area
+		p = append(p, clip.Point64{X: p0.X + k2*vx + r.Range(-5, 5), Y: p0.Y + k2*vy + (int64(1) << 34) + r.Range(0, 99)})
+		if r.Intn(3) == 0 { // knock one run vertex off the line by a few units
+			p[1].Y += r.Range(-3, 3)
+		}
+		if r.Intn(3) == 0 { // differences (m1*2^32, a), (m2*2^32, b): cross products near multiples of 2^64
+			m1, m2 := r.Range(2, 2000), r.Range(2, 2000)
+			a, b := r.Range(1<<30, 1<<32), r.Range(1<<30, 1<<32)
+			p = clip.Path64{p0, {X: p0.X + m1<<32, Y: p0.Y + a}, {X: p0.X + (m1+m2)<<32, Y: p0.Y + a + b}, {X: p0.X, Y: p0.Y + (int64(1) << 40)}}
+		}
+		return p
+	}
 	switch r.Intn(6) {
 	case 0: // tiny grid, any shape
 		n := r.Intn(8)
